@@ -317,6 +317,11 @@ def rope_int(r):
         p = base_props(ch)
         if "nondigit" in p:
             raise ValueError("invalid literal for int() with base 10")
+        if isinstance(ch, BL):
+            items = _lit_items(ch)
+            if items is not None and any(chr(x) not in "0123456789+-_ \t\n\r\x0b\x0c" and not chr(x).isdigit() and not chr(x).isspace()
+                                         for x in items):
+                raise ValueError("invalid literal for int() with base 10")
     raise OutOfReach(f"int() of symbolic string {r!r}")
 
 
@@ -360,7 +365,7 @@ def rope_lower(r, upper=False):
         elif isinstance(ch, BS):
             # case mapping of an opaque slice: opaque chunk keyed by the slice identity; str.lower is
             # length preserving for the code points the properties quantify over (ASCII / Latin-1 w/o U+00DF... )
-            out.append(BX(("upper" if upper else "lower", ch.base.name, str(ch.lo), str(ch.hi)), ch.length(),
+            out.append(BX(("upper" if upper else "lower", ch.base.name, ch.lo.sexpr(), ch.hi.sexpr()), ch.length(),
                           {"free_of": frozenset(c for c in ch.base.free_of if not chr(c).isalpha())}))
         else:
             raise OutOfReach(f"case mapping over chunk {ch!r}")
@@ -426,10 +431,11 @@ def rope_encode(r, encoding="utf-8", errors="strict"):
                 # non-ASCII utf-8: opaque multi-byte encoding, at least as long as the text
                 # not all elements <= 127: some character needs more than one byte, so the UTF-8 image is
                 # strictly longer than the text (and the text is not empty)
-                ln = c.fresh_int("utf8len")
+                import hashlib
+                ln = z3.Int("utf8len_" + ch.base.name + "_" + hashlib.md5((ch.lo.sexpr() + ":" + ch.hi.sexpr()).encode()).hexdigest()[:8])
                 c.assume(z3.And(ln > ch.length(), ch.length() > 0, ln <= 4 * ch.length()))
                 c.imprecise = True
-                out.append(BX(("utf8", ch.base.name, str(ch.lo), str(ch.hi)), ln))
+                out.append(BX(("utf8", ch.base.name, ch.lo.sexpr(), ch.hi.sexpr()), ln))
                 continue
             if c.is_true(ch.length() == 0):
                 continue
@@ -470,7 +476,7 @@ def _encode_wide(r, enc):
             if not c.branch(nosur):
                 c.assume(ch.length() > 0)
                 raise UnicodeEncodeError(enc, "?", 0, 1, "surrogates not allowed")
-            out.append(BX(("wide", enc, ch.base.name, str(ch.lo), str(ch.hi)), simp(ch.length() * width),
+            out.append(BX(("wide", enc, ch.base.name, ch.lo.sexpr(), ch.hi.sexpr()), simp(ch.length() * width),
                           {"src": ch, "enc": enc}))
         else:
             raise OutOfReach(f"wide encode over {ch!r}")
@@ -504,7 +510,7 @@ def rope_decode(r, encoding="utf-8", errors="strict"):
                     ln = c.fresh_int("declen")
                     c.assume(z3.And(ln >= 0, ln <= ch.length()))
                     c.imprecise = True
-                    out.append(BX(("utf8dec", ch.base.name, str(ch.lo), str(ch.hi), errors), ln))
+                    out.append(BX(("utf8dec", ch.base.name, ch.lo.sexpr(), ch.hi.sexpr(), errors), ln))
                 else:
                     c.assume(ch.length() > 0)
                     raise UnicodeDecodeError(enc, b"?", 0, 1, "ordinal not in range")
